@@ -166,6 +166,11 @@ impl<'a> Parser<'a> {
                 }
             }
             if self.at(TokenKind::Eof) {
+                if end_token.is_some() {
+                    // The source ends inside a `loop` or `while` block
+                    let tok = self.get()?;
+                    return Err(tok.error(ParseErrorKind::UnexpectedEof));
+                }
                 break;
             } else if self.at(TokenKind::Eol) {
                 self.skip();
